@@ -735,6 +735,7 @@ func (x *Exec) applyCallee(st *State, ins ssa.Instruction, c *ssa.CallCommon, ar
 		if idx >= 0 && idx < len(rets) {
 			// a freshly allocated result: newer than everything that existed before the call
 			st.assume(mkOr(mkEq(rets[idx].L[0], tZero), mkCmp(">", rets[idx].L[0], pre.top)))
+			st.allocs = append(st.allocs, rets[idx].L[0])
 			nt := x.fresh(st, "top", sInt)
 			st.assume(mkAnd(mkCmp(">=", nt, st.top), mkCmp(">=", nt, rets[idx].L[0])))
 			st.top = nt
@@ -1290,13 +1291,38 @@ func (x *Exec) havocAny(st *State, what string, pkg *ssa.Package, olderOnly bool
 		leaves := flatten(h.base)
 		for _, kind := range []string{"H", "M"} {
 			for k := h.lo; k < h.hi; k++ {
-				old := x.heapCurE(st, kind, h.base, leaves[k])
 				name := heapName(kind, h.base, leaves[k].Path)
+				if st.virgin[name] {
+					// already a fresh version that nobody has looked at
+					st.writeLog = append(st.writeLog, name)
+					continue
+				}
+				if _, touched := st.heap[name]; !touched {
+					// nothing is known about this array on this path (no object of the type was allocated or
+					// read): a fresh version is all that is needed, there is nothing to preserve
+					x.heapInfo[name] = heapMeta{kind, h.base, leaves[k]}
+					x.heapHavoc(st, name)
+					if st.virgin == nil {
+						st.virgin = map[string]bool{}
+					}
+					st.virgin[name] = true
+					st.writeLog = append(st.writeLog, name)
+					continue
+				}
+				old := x.heapCurE(st, kind, h.base, leaves[k])
 				x.heapHavoc(st, name)
 				st.writeLog = append(st.writeLog, name)
 				nw := st.heap[name]
 				if olderOnly {
-					st.assume(Term{fmt.Sprintf("(forall ((r!q Int)) (! (=> (> r!q %s) (= (select %s r!q) (select %s r!q))) :pattern ((select %s r!q))))", x.entry.top.S, nw.S, old.S, nw.S), sBool})
+					// everything allocated during this activation (own allocations and fresh results of callees)
+					// is out of the sink's reach; pointwise, to keep the queries quantifier-free
+					seen := map[string]bool{}
+					for _, a := range st.allocs {
+						if !seen[a.S] {
+							seen[a.S] = true
+							st.assume(mkEq(mkSelect(nw, a), mkSelect(old, a)))
+						}
+					}
 				} else if kind == "H" {
 					for _, r := range priv {
 						rt := Term{r, sInt}
